@@ -1045,8 +1045,8 @@ func (e *Exec) filterAddrs(c *ast.CallExpr, in Val, preds []Val) Val {
 		kept := fmt.Sprintf("(fkept %s k!c)", base)
 		e.addFact(fmt.Sprintf("(forall ((k!c Int)) (! (=> (and (<= 0 k!c) (< k!c %s)) (and %s (or %s %s))) :pattern (%s)))",
 			src.Len, mkAnd(locals...), kept, mkOr(negs...), inAt))
-		e.addFact(fmt.Sprintf("(forall ((k!c Int)) (! (=> (fkept %s k!c) (and (<= 0 (fidx %s k!c)) (< (fidx %s k!c) %s) (= (fsrc %s (fidx %s k!c)) k!c))) :pattern ((fkept %s k!c))))",
-			base, base, base, out.Len, base, base, base))
+		e.addFact(fmt.Sprintf("(forall ((k!c Int)) (! (=> (fkept %s k!c) (and (<= 0 (fidx %s k!c)) (< (fidx %s k!c) %s) (= (fsrc %s (fidx %s k!c)) k!c) (= (select %s (fidx %s k!c)) %s))) :pattern ((fkept %s k!c))))",
+			base, base, base, out.Len, base, base, arr, base, inAt, base))
 	}
 	return out
 }
